@@ -356,3 +356,39 @@ func rootsInAlloc(a ssa.Value) bool {
 }
 
 func tokenAND() token.Token { return token.AND }
+
+// modeRecvClass classifies the receiver of an AccessMode predicate.
+func (c *Ctx) modeRecvClass(v ssa.Value) string {
+	v = core.Strip(v)
+	if c.isEffMode()(v) {
+		return "want&given(perUser record)"
+	}
+	if c.isEffModeSub()(v) {
+		return "want&given(stored subscription)"
+	}
+	if f, _ := core.LoadedField(v); f != nil {
+		return "field " + f.Name()
+	}
+	switch x := v.(type) {
+	case *ssa.BinOp:
+		return "binop " + x.Op.String() + "(" + c.modeRecvClass(x.X) + "," + c.modeRecvClass(x.Y) + ")"
+	case *ssa.UnOp:
+		if _, ok := x.X.(*ssa.Alloc); ok {
+			return "local"
+		}
+		return "load"
+	case *ssa.Parameter:
+		return "param " + x.Name()
+	case *ssa.Phi:
+		return "phi"
+	case *ssa.Const:
+		return "const"
+	case *ssa.Call:
+		if f := core.CalleeOf(&x.Call); f != nil {
+			return "call " + f.Name()
+		}
+	case *ssa.Extract:
+		return "extract"
+	}
+	return "other"
+}
